@@ -433,6 +433,19 @@ fn run(ctx: &mut Ctx) {
         let tag = &payload[..payload.len().min(64)];
         pwb_chunks(ctx, &dec, tag);
         pwb_chunks(ctx, &[], tag);
+        if raw.len() >= 3 {
+            // final chunk longer than the others (legal), in order and reversed
+            let mut r2 = raw.clone();
+            let last = r2.pop().unwrap();
+            let k = r2.len() - 1;
+            r2[k].payload.extend(last.payload);
+            r2[k].flags = 1;
+            let mut l: Vec<Chunk> = r2.iter().map(|c| Chunk::try_from(&c.encode()[..]).unwrap()).collect();
+            pwb_chunks(ctx, &l, tag);
+            l.reverse();
+            pwb_chunks(ctx, &l, tag);
+            ctx.count("chunk lists with a longer final chunk");
+        }
         for _ in 0..20 {
             let mut l = dec.clone();
             match rng.below(6) {
